@@ -14,7 +14,9 @@ CODATA = {'F', 'S', 'U', 'O'}
 
 
 class G:
-    def __init__(self, seed, mode, unique=False, ext=False):
+    def __init__(self, seed, mode, unique=False, ext=False, pure_codata=False):
+        self.pure_codata = pure_codata   # no effect inside a codata-typed term (when a by-name receiver's effects happen
+                                         # relative to the eager arguments of its destructor is not fixed by the source semantics)
         self.ext = ext            # extended grammar (only generated with distinct binders): destructors with two covariable
                                   # parameters, labels nested in tail position, a scrutinee used again inside its own clause
         self.r = random.Random(seed)
@@ -47,6 +49,8 @@ class G:
     def gen(self, ty, env, d, eff):
         """a term of type ty (fully parenthesised where the grammar needs it)"""
         r = self.r
+        if self.pure_codata and ty in CODATA:
+            eff = False
         vs = self.vars_of(env, ty)
         if d <= 0:
             if vs and r.random() < 0.7:
@@ -294,17 +298,17 @@ def program(seed, mode='all', depth=3):
     return {'name': f"rand/{mode}/{depth}/{seed}", 'src': out[0], 'twin': out[1]}
 
 
-def program_ext(seed, mode='all', depth=3):
+def program_ext(seed, mode='all', depth=3, pure_codata=False):
     """extended grammar, distinct binders only (no twin: the open capture finding cannot show on these)"""
-    g = G(seed, mode, True, ext=True)
+    g = G(seed, mode, True, ext=True, pure_codata=pure_codata)
     body = g.gen('I', [('a', 'I', 'prd'), ('b', 'I', 'prd')], depth, True)
     src = (DECLS + EXTRA_DECLS + EXT_DECLS + "data PairLL { Tup2(fst: List[i64], snd: List[i64]) }\n" + HELPERS + ''.join(g.defs)
            + f"\ndef main(a: i64, b: i64): i64 {{ {body} }}\n")
     return {'name': f"randx/{mode}/{depth}/{seed}", 'src': src}
 
 
-def programs_ext(mode, seeds, depth=3):
-    return [program_ext(s, mode, depth) for s in seeds]
+def programs_ext(mode, seeds, depth=3, pure_codata=False):
+    return [program_ext(s, mode, depth, pure_codata) for s in seeds]
 
 
 def programs(mode, seeds, depth=3):
